@@ -274,8 +274,8 @@ func refreshFieldsOK(R *Roles) (bool, string) {
 			continue
 		}
 		ret := resolveCell(stripConv(r.Results[0]))
-		al, ok := ret.(*ssa.Alloc)
-		if !ok {
+		al := uniqueAllocOf(ret)
+		if al == nil {
 			return false, "refresh helper returns " + descDepth(ret, 2) + ", not an object built in the helper"
 		}
 		for name, vals := range structFieldStores(al) {
@@ -794,4 +794,17 @@ func audienceComparisons(P *Program, R *Roles, fn *ssa.Function) []ssa.Value {
 		}
 	}
 	return out
+}
+
+// uniqueAllocOf: v is (on every path: through phis and cells) one and the same allocation.
+func uniqueAllocOf(v ssa.Value) *ssa.Alloc {
+	var al *ssa.Alloc
+	for _, l := range Leaves(v, leafOpts{}) {
+		a, ok := resolveCell(stripConv(l)).(*ssa.Alloc)
+		if !ok || (al != nil && a != al) {
+			return nil
+		}
+		al = a
+	}
+	return al
 }
